@@ -490,7 +490,7 @@ func TestC32(t *testing.T) {
 	tokenKey := map[string]string{}     // identity token -> key
 	batch := workers() * 2
 	gen := genCertCase()
-	ev.RapidCheck(t, 6, 200, func(t *rapid.T) {
+	ev.RapidCheck(t, 5, 200, func(t *rapid.T) {
 		cs := make([]certCase, batch)
 		for i := range cs {
 			cs[i] = gen.Draw(t, fmt.Sprintf("case%d", i))
